@@ -103,6 +103,21 @@ def falsify(ctx, case: Dict) -> bool:
             for ch in chunks:
                 ind.append(X.mk_rows(ch))
             bad = relations(spec["kind"], ind, E.snapshot(ind))
+            if bad is None and ind.candles and len(rows) % 2 == 0:
+                # the relations - rounding to round_value in particular - also hold for readings that
+                # were computed again: a recomputed index, a recomputed range, a whole recalculate()
+                n_c = len(ind.candles)
+                i = (len(rows) * 7 + 3) % n_c
+                ind.calculate_index(i)
+                ind.calculate_index(-1)
+                if n_c > 3:
+                    ind.calculate_index(max(0, i - 2), min(n_c, i + 2))
+                bad = relations(spec["kind"], ind, E.snapshot(ind))
+                if bad is None and len(rows) % 4 == 0:
+                    ind.recalculate()
+                    bad = relations(spec["kind"], ind, E.snapshot(ind))
+                if bad:
+                    bad = {**bad, "after": "recomputation"}
     except Exception:  # noqa  (C09's subject)
         return False
     if bad:
